@@ -513,6 +513,10 @@ def c14_gen(rng, cid, tier):
         # after instances were constructed: it takes its domain at evaluation time - every instance constructed so far
         pos = 2 + (int(cid[1:]) * 7) % (len(ops) - 1)
         ops = [('qd', (int(cid[1:]) // 2) % n_cls)] + ops[:pos - 1] + [('qe',)] + ops[pos - 1:]
+        if int(cid[1:]) % 4 == 3 and pos >= 3:
+            # ... or declared LATER, when some classes of the hierarchy have instances and others have none yet
+            d = 1 + (int(cid[1:]) * 5) % (pos - 1)
+            ops = ops[1:d + 1] + [ops[0]] + ops[d + 1:]
     case = {'id': cid, 'classes': classes, 'ops': ops}
     if rng.random() < 0.25:
         # SIZED classes: some root classes define __len__ (= the field a), so instances constructed with defaults / a=0 are
